@@ -22,6 +22,7 @@ func checkC10(c *Ctx, r *Report) {
 	r.Explanation = "R14 VARIANT-FIELD-INIT: the token kinds under which Parse reads Token.EndAt are derived by evaluating the tail of Parse under each Kind constant; every Token literal that can carry such a kind must set EndAt from the lexer position. R1 PROVENANCE: who-writes tables for the fields that carry prologue, union body and epilogue from the lexer to the template holes (assignment/field-copy/return only, `+=` for the prologue). Append-only rule: the slices holding rules and right-hand sides are written only by literal initialisation, make, append-at-end or copies of such locals, and are never passed to a sort. NOT decided: layout independence (whitespace, comments, optional `;`) — a language-recognition question over all texts; known limits noted in DESIGN.md (\\r is not whitespace, braces inside strings in actions are counted, mid-rule actions overwrite each other)."
 	r.Assumptions = append(r.Assumptions, "text/template does not escape (it is text/template, not html/template) — checked by import path in C16")
 	c10a(c, r)
+	c10InputIsTheFile(c, r, "C10.a")
 	c10b(c, r)
 	c01StartSymbolFlow(c, r, "C10.c")
 	c10DirectiveWords(c, r, "C10.d")
@@ -1216,4 +1217,97 @@ func dumpPaths(c *Ctx, want string) {
 			}
 		}
 	}
+}
+
+// c10InputIsTheFile — the text the generator works on is the grammar file: in the command's genCommonFunc the first
+// argument of the generator call is string(b) with b the result of a read-everything call (io.ReadAll, ioutil.ReadAll,
+// os.ReadFile, ioutil.ReadFile) — no reader in between that splits, limits or re-joins the bytes (a bufio.Scanner
+// stops silently at a line longer than its buffer; a line-wise copy changes the end of the last line).
+func c10InputIsTheFile(c *Ctx, r *Report, clause string) {
+	f := c.need(r, clause, "yaccgo", "", "genCommonFunc")
+	if f == nil {
+		return
+	}
+	info := f.Pkg.TypesInfo
+	key := f.Name + "/generator-input-is-the-file's-bytes"
+	readAll := map[string]bool{"io.ReadAll": true, "io/ioutil.ReadAll": true, "os.ReadFile": true, "io/ioutil.ReadFile": true}
+	// the generator parameter: a parameter of function type
+	var gens []types.Object
+	for _, fl := range f.Decl.Type.Params.List {
+		for _, nm := range fl.Names {
+			if o := info.Defs[nm]; o != nil {
+				if _, isFn := o.Type().Underlying().(*types.Signature); isFn {
+					gens = append(gens, o)
+				}
+			}
+		}
+	}
+	defs := newDefs(info)
+	defs.scan(f.Decl.Body)
+	nCalls, why := 0, ""
+	ast.Inspect(f.Decl.Body, func(n ast.Node) bool {
+		call, ok := n.(*ast.CallExpr)
+		if !ok || len(call.Args) == 0 {
+			return true
+		}
+		isGen := false
+		for _, g := range gens {
+			if identObj(info, call.Fun) == g {
+				isGen = true
+			}
+		}
+		if !isGen {
+			return true
+		}
+		nCalls++
+		arg := unparen(call.Args[0])
+		conv, ok := arg.(*ast.CallExpr)
+		if !ok || len(conv.Args) != 1 {
+			why = "the generator's input is `" + exprString(arg) + "`, not string(<bytes of the file>)"
+			return true
+		}
+		if tv, ok := info.Types[conv.Fun]; !ok || !tv.IsType() || !isStringType(tv.Type) {
+			why = "the generator's input is `" + exprString(arg) + "`, not string(<bytes of the file>)"
+			return true
+		}
+		src := unparen(conv.Args[0])
+		o := identObj(info, src)
+		if o == nil {
+			why = "the converted value `" + exprString(src) + "` is not a variable holding the file's bytes"
+			return true
+		}
+		// its only definition: `b, err := <read-all>(…)`
+		found := false
+		nDefs := 0
+		ast.Inspect(f.Decl.Body, func(m ast.Node) bool {
+			as, ok := m.(*ast.AssignStmt)
+			if !ok {
+				return true
+			}
+			for _, l := range as.Lhs {
+				if identObj(info, l) == o {
+					nDefs++
+					if len(as.Rhs) == 1 {
+						if rc, ok := unparen(as.Rhs[0]).(*ast.CallExpr); ok {
+							if fn := callee(info, rc); fn != nil && readAll[fn.FullName()] {
+								found = true
+							}
+						}
+					}
+				}
+			}
+			return true
+		})
+		if !found || nDefs != 1 {
+			why = fmt.Sprintf("`%s` is not the result of one read-everything call (io.ReadAll / os.ReadFile): %d assignment(s)", o.Name(), nDefs)
+		}
+		return true
+	})
+	if nCalls == 0 {
+		r.Undecided(clause, "R1 PROVENANCE", key, c.pos(f.Decl.Pos()), "no call of the generator parameter found")
+		return
+	}
+	r.Check(why == "", clause, "R1 PROVENANCE", key, c.pos(f.Decl.Pos()),
+		"the generator receives string(b) with b the result of one read-everything call on the input file",
+		"the text handed to the generator is not the file as it is: "+why+" — a reader in between can stop early or change line ends without any error")
 }
